@@ -52,7 +52,15 @@ pub enum Op {
     RetainMut(Vec<u32>, Vec<(u32, i32)>),
     IterMut { steps: Vec<ImStep>, end: End, via_ref: bool },
     /// `q.iter_mut().for_each(..)`: the i-th visited element gets writes[i] (None = untouched)
-    IterMutForEach { writes: Vec<Option<i32>> },
+    IterMutForEach {
+        writes: Vec<Option<i32>>,
+        /// calls made before for_each takes over: false = next, true = next_back (nothing written)
+        #[serde(default)]
+        pre: Vec<bool>,
+        /// consume through rev().for_each (rfold) instead
+        #[serde(default)]
+        rev: bool,
+    },
     /// `q.iter_mut().find(..)` stopping at the j-th element, which gets a priority written
     IterMutFind { stop_at: u32, prio: i32 },
     /// `q.clone_from(&other)` where other is built from these pairs
@@ -417,20 +425,57 @@ pub fn step<Q: QueueLike>(q: &mut Q, op: &Op, m: &mut Model, unordered: &mut boo
             }
             Ok(Ret::Pairs(out))
         }
-        Op::IterMutForEach { writes } => {
-            let it = q.q_iter_mut();
+        Op::IterMutForEach { writes, pre, rev } => {
+            let mut it = q.q_iter_mut();
+            let mut early: Vec<Pair> = vec![];
+            for &b in pre {
+                let got = if b {
+                    match it.nb() {
+                        Some(x) => x,
+                        None => None,
+                    }
+                } else {
+                    it.nx()
+                };
+                if let Some((i, p)) = got {
+                    early.push(pair_of(i, p));
+                }
+            }
             let mut seen: Vec<Pair> = vec![];
             let mut ix = 0usize;
-            it.for_each_(&mut |(i, p): (&mut Item, &mut Prio)| {
-                fault_point(C_CLOSURE);
-                seen.push(pair_of(i, p));
-                if let Some(Some(np)) = writes.get(ix) {
-                    *p = Prio::new(*np);
-                }
-                ix += 1;
-            });
+            if *rev {
+                // the writes happen inside the closure, while the iterator is alive
+                it.rev_for_each_(&mut |(i, p): (&mut Item, &mut Prio)| {
+                    fault_point(C_CLOSURE);
+                    seen.push(pair_of(i, p));
+                    if let Some(Some(np)) = writes.get(ix) {
+                        *p = Prio::new(*np);
+                    }
+                    ix += 1;
+                });
+            } else {
+                it.for_each_(&mut |(i, p): (&mut Item, &mut Prio)| {
+                    fault_point(C_CLOSURE);
+                    seen.push(pair_of(i, p));
+                    if let Some(Some(np)) = writes.get(ix) {
+                        *p = Prio::new(*np);
+                    }
+                    ix += 1;
+                });
+            }
             let mut log = seen.clone();
-            check_visit_log("iter_mut().for_each", &mut log, m)?;
+            if pre.is_empty() && !*rev {
+                check_visit_log("iter_mut().for_each", &mut log, m)?;
+            } else {
+                // the elements taken by the explicit calls and the ones for_each visits together are
+                // every stored element exactly once (fewer only if the prefix alone exhausted it)
+                let mut all = early.clone();
+                all.extend(seen.iter().copied());
+                if early.len() < pre.len() && !seen.is_empty() {
+                    bail!("iter_mut(): a call of the prefix {pre:?} returned None, yet for_each still visited {seen:?}");
+                }
+                check_visit_log("iter_mut() advanced from both ends, then for_each", &mut all, m)?;
+            }
             for (j, pr) in seen.iter().enumerate() {
                 if let Some(Some(np)) = writes.get(j) {
                     m.get_mut(&pr.0).unwrap().1 = *np;
